@@ -738,6 +738,24 @@ pub fn spaces(tier: Tier) -> Vec<Space> {
             }));
         }
     }
+    // Base58Check text decoders fed payloads of EVERY length 0..=90 under a valid checksum (a length the slicing code did not
+    // expect is only reachable when the checksum is right): first byte 00 / 80 / 04, zero or counter filling
+    {
+        let names = ["PrivateKey::from_wif", "P2PKHAddress::from_string", "ExtendedPrivateKey::from_string", "ExtendedPublicKey::from_string"];
+        let es: Vec<Arc<Entry>> = entries().into_iter().filter(|e| names.contains(&e.name)).map(Arc::new).collect();
+        let ne = es.len() as u64;
+        v.push(Space::isolated("base58check-payload-lengths", ne * 91 * 3 * 2, move |case, acc| {
+            let c = crate::engine::coords(case.idx, &[ne, 91, 3, 2]);
+            let e = &es[c[0] as usize];
+            let len = c[1] as usize;
+            let mut payload: Vec<u8> = (0..len).map(|i| if c[3] == 0 { 0u8 } else { (i as u8).wrapping_mul(7).wrapping_add(1) }).collect();
+            if len > 0 {
+                payload[0] = [0x00u8, 0x80, 0x04][c[2] as usize];
+            }
+            let text = b58::check_encode(&payload);
+            run_call(acc, case, e.name, &e.call, &format!("valid-checksum payload of {} bytes, first byte {:02x}", len, payload.first().copied().unwrap_or(0)), text.as_bytes());
+        }));
+    }
     // structure-aware deviation 1 on JSON documents and on their CBOR twins: every node of the document tree x
     // (23 replacement values, delete, duplicate), through the JSON and the compact decoders of Transaction and TxIn
     {
